@@ -2,6 +2,9 @@
 from __future__ import annotations
 
 import copy
+import re
+
+COORD = re.compile(r"^r(\d+)c(\d+)")
 
 OPTIONAL = ("title", "subline", "footnote", "source", "page_header", "page_footer")
 STRUCTURAL_BODY = {"page_by", "subline_by", "group_by", "new_page", "pageby_row"}
@@ -11,7 +14,12 @@ def _drop_rows(sec, idxs):
     s = copy.deepcopy(sec)
     keep = [i for i in range(len(s["df"]["cols"][0]["values"])) if i not in idxs] if s["df"]["cols"] else []
     for c in s["df"]["cols"]:
-        c["values"] = [c["values"][i] for i in keep]
+        vals = [c["values"][i] for i in keep]
+        if c["dtype"] == "str":   # keep coordinate tags r<i>c<j> consistent with the new row positions
+            vals = [COORD.sub(lambda m, k=k: f"r{k}c{m.group(2)}", v) if isinstance(v, str) else v for k, v in enumerate(vals)]
+        c["values"] = vals
+    if isinstance(s.get("heights"), list):
+        s["heights"] = [s["heights"][i] for i in keep if i < len(s["heights"])]
     return s
 
 
@@ -94,11 +102,19 @@ def generic_reductions(case):
                             del c["sections"][si]["headers"][hi][a]
                             yield c
         # simplify cell values
+        grouping = set()
+        for key in ("page_by", "subline_by", "group_by"):
+            v = body.get(key) or []
+            grouping |= set([v] if isinstance(v, str) else v)
         for ci, col in enumerate(cols):
-            if col["dtype"] == "str":
+            if col["dtype"] == "str" and col["name"] not in grouping:
                 for ri, v in enumerate(col["values"][:24]):
                     if isinstance(v, str) and len(v) > 3 and not v.startswith("@"):
+                        m = COORD.match(v)
+                        keep_len = m.end() if m else 0
+                        if len(v) - keep_len <= 3:
+                            continue
                         c = copy.deepcopy(case)
-                        c["sections"][si]["df"]["cols"][ci]["values"][ri] = v[: max(1, len(v) // 2)]
+                        c["sections"][si]["df"]["cols"][ci]["values"][ri] = v[: keep_len + max(0, (len(v) - keep_len) // 2)]
                         yield c
     # nrow up (fewer pages) is not a reduction we try: pagination is usually essential
